@@ -491,3 +491,57 @@ func TestPoolAddCancelRace(t *testing.T) {
 		return "NewPool(live); {Add(live) || Cancel()} from two goroutines; then Size()==0, Cancel() again, Done closed"
 	})
 }
+
+// TestPoolEndCancelRace: members end and Cancel is called at about the same time (real goroutines, many rounds, with and
+// without an Add in the mix). A watcher that has just been woken by a member and a Cancel that drops the member list
+// meet in windows no settled history reaches. Whatever the order: nothing panics (a panic in the watcher goroutine kills
+// the process, which the driver reports), the pool is done, Size is 0, a second Cancel is harmless.
+func TestPoolEndCancelRace(t *testing.T) {
+	sec := vk.Sec("PoolEndCancelRace")
+	rounds := vk.Pick(60000, 1500000) / vk.Shards()
+	for r := 0; r < rounds; r++ {
+		n := 1 + r%4
+		var members []context.Context
+		var cancels []context.CancelFunc
+		for i := 0; i < n; i++ {
+			m, c := context.WithCancel(context.Background())
+			members, cancels = append(members, m), append(cancels, c)
+		}
+		pool := kitctx.NewPool(members...)
+		extra, cancelExtra := context.WithCancel(context.Background())
+		start := make(chan struct{})
+		var wg sync.WaitGroup
+		wg.Add(2)
+		go func() {
+			defer wg.Done()
+			<-start
+			for _, c := range cancels {
+				c()
+			}
+		}()
+		go func() {
+			defer wg.Done()
+			<-start
+			for i := 0; i < (r/4)%3; i++ {
+				runtime.Gosched()
+			}
+			pool.Cancel()
+		}()
+		if r%5 == 0 {
+			wg.Add(1)
+			go func() { defer wg.Done(); <-start; pool.Add(extra) }()
+		}
+		close(start)
+		wg.Wait()
+		<-pool.Done()
+		if s := pool.Size(); s != 0 {
+			t.Fatalf("C20 context.Pool violated: after Cancel returned (members ending at the same time), Size() = %d, want 0 (round %d)", s, r)
+		}
+		pool.Cancel()
+		cancelExtra()
+		sec.Case(true, vk.FP("end-cancel-race", n, r%5 == 0), "members-end-vs-cancel")
+	}
+	sec.Sample(func() any {
+		return "NewPool(1..4 live members); {all members end || Cancel() (|| Add)} from separate goroutines; then Done closed, Size()==0, Cancel() again"
+	})
+}
